@@ -35,7 +35,7 @@ func (s *smokeCB) UpdateApplication(r *si.ApplicationResponse) error {
 	s.apps += len(r.Accepted)
 	return nil
 }
-func (s *smokeCB) UpdateNode(r *si.NodeResponse) error { s.c.yield("cbNode"); return nil }
+func (s *smokeCB) UpdateNode(r *si.NodeResponse) error      { s.c.yield("cbNode"); return nil }
 func (s *smokeCB) Predicates(args *si.PredicatesArgs) error { s.c.yield("pred"); return nil }
 func (s *smokeCB) PreemptionPredicates(args *si.PreemptionPredicatesArgs) *si.PreemptionPredicatesResponse {
 	return nil
